@@ -201,4 +201,20 @@ PROPS = {
                                   "Graham-scan optimality is decided by the exact oracle per input, not proved"],
         assumptions=["integer-grid coordinates up to 2^20 (squared distances exact)"],
     ),
+    "C19": dict(
+        modules=["GeomVerif.Properties.C19", "GeomVerif.Model.Calendar"],
+        n_quick=10000, n_thorough=200000, thorough_seeds=4, min_theorems=6,
+        rule="decode: synthetic IGC documents (A record present/absent, BOM/XOFF/other noise before it, CR LF or LF, HFDTE and other H records, "
+             "valid and forged I extension tables (wrong start, stop before start, descending/overlapping, truncated), B records valid, truncated, "
+             "over-long, shorter than the extensions require, one character corrupted), 1/6 with random byte mutations, 5% pure random bytes. "
+             "round trip: tracks of 1..8 fixes with lon in [-180,180], lat in [-90,90] incl. the poles/antimeridian, alt 0..10000 (integer and "
+             "fractional), non-decreasing timestamps 1970..2069 with steps of 0 s, seconds, up to a day, and 1..400 days, starting also at "
+             "1999-12-31T23:59:50, on 1 January and on 31 December. Go's coordinates (bit patterns), header and error counts are compared with the "
+             "Lean model; the oracle checks no panic, whole 5-tuples, and the fix round trip to format resolution. non-trivial = all",
+        nontrivial=lambda op, inp: True,
+        trusted_base=TB_COMMON + ["modelled: igc decode.go / encode.go incl. bufio line splitting, time.Date normalisation and Unix conversion, int64 wrap of UnixNano, fmt %0Nd",
+                                  "the H-record regular expression is evaluated by Go's regexp on the literal read from /repo's source at run time and passed to the model as data",
+                                  "Lean Float mirrors Go's float arithmetic (int->float64 conversion, division) bit for bit"],
+        assumptions=["lines shorter than bufio.Scanner's 64 KiB token limit"],
+    ),
 }
